@@ -210,9 +210,10 @@ class _Found(Exception):
     pass
 
 
-class CaseTimeout(BaseException):
-    """raised inside a case that exceeds the per-case real-time limit (BaseException: scenario code catching Exception
-    must not swallow it)"""
+class CaseTimeout(KeyboardInterrupt):
+    """raised inside a case that exceeds the per-case real-time limit.  A KeyboardInterrupt subclass on purpose: asyncio's
+    callback and task runners swallow every other BaseException into the loop's exception handler and carry on, while
+    they let KeyboardInterrupt travel up out of run_forever()."""
 
 
 def _guarded_run(sub, case, limit, stats):
@@ -229,7 +230,7 @@ def _guarded_run(sub, case, limit, stats):
         old = signal.signal(signal.SIGALRM, on_alarm)
     except ValueError:  # not in the main thread
         return sub.run(case)
-    signal.setitimer(signal.ITIMER_REAL, limit)
+    signal.setitimer(signal.ITIMER_REAL, limit, 5.0)  # (again every 5 s, should a clean-up handler swallow the first one)
     try:
         return sub.run(case)
     except CaseTimeout:
